@@ -181,8 +181,44 @@ Proof.
   intros it Hin. apply in_app_or in Hin. destruct Hin as [Hin|[<-|[]]]; [left; exact Hin | right; reflexivity].
 Qed.
 
-Definition onehop (st : bstate) (t : spec) : spec :=
-  match lookup t (st_redirects st) with Some r => r | None => t end.
+Definition onehop (st : bstate) (t : spec) : spec := load_target st t.
+
+(* following recorded redirects *)
+Inductive RStar (reds : list (spec * spec)) : spec -> spec -> Prop :=
+| RS_refl : forall s, RStar reds s s
+| RS_step : forall s r e, lookup s reds = Some r -> RStar reds r e -> RStar reds s e.
+
+Lemma rstar_trans1 : forall reds s e r, RStar reds s e -> lookup e reds = Some r -> RStar reds s r.
+Proof.
+  intros reds s e r H. induction H as [s|s r0 e Hl _ IH]; intro Hr.
+  - eapply RS_step; [exact Hr | apply RS_refl].
+  - eapply RS_step; [exact Hl | apply IH; exact Hr].
+Qed.
+
+Lemma resolve_loop_rstar : forall f g start cur seen,
+  RStar (g_redirects g) start cur -> RStar (g_redirects g) start (resolve_loop f g cur seen).
+Proof.
+  induction f as [|f IH]; intros g start cur seen H; cbn [resolve_loop]; [exact H|].
+  unfold redirect_of. destruct (lookup cur (g_redirects g)) as [nxt|] eqn:El; [|exact H].
+  destruct (mem nxt seen); [exact H|].
+  destruct (Nat.leb MAX_REDIRECTS (length (nxt :: seen))).
+  - eapply rstar_trans1; eassumption.
+  - apply IH. eapply rstar_trans1; eassumption.
+Qed.
+
+Lemma resolve_rstar : forall g s, RStar (g_redirects g) s (resolve g s).
+Proof.
+  intros g s. unfold resolve, redirect_of. destruct (lookup s (g_redirects g)) as [s1|] eqn:El; [|apply RS_refl].
+  apply resolve_loop_rstar. eapply RS_step; [exact El | apply RS_refl].
+Qed.
+
+Lemma settx_rstar : forall slots reds reds' xs s e,
+  RStar reds s e -> (forall t r, lookup t reds = Some r -> lookup t reds' = Some r) ->
+  SettX slots reds' xs e -> SettX slots reds' xs s.
+Proof.
+  intros slots reds reds' xs s e H Hm He. induction H as [s|s r e Hl _ IH]; [exact He|].
+  eapply SX_red; [apply Hm; exact Hl | apply IH; exact He].
+Qed.
 
 Lemma node_trivial : forall st s m, BMod (node_module s) = BMod m -> ModOK [] st m.
 Proof. intros st s m H. inversion H; subst. apply trivial_modok. split; reflexivity. Qed.
@@ -193,7 +229,7 @@ Lemma load_grows : forall st spec0 range asset in_dyn root attr count,
   has_key (onehop st spec0) (st_slots (load W o st spec0 range asset in_dyn root attr count)) = true.
 Proof.
   intros st spec0 range asset in_dyn root attr count. unfold load, onehop.
-  set (s := match lookup spec0 (st_redirects st) with Some r => r | None => spec0 end).
+  set (s := load_target st spec0).
   destruct (asset && negb (N.eqb attr 0) && negb (attr_allowed o attr)).
   { split; [apply grows_set_slot; intros m E; discriminate | apply set_slot_has]. }
   assert (Hp : Grows st match class_of W s with
@@ -211,6 +247,21 @@ Proof.
     - split; [eapply grows_trans; [apply (grows_set_slot st s (BMod (node_module s)) (node_trivial st s))|apply grows_ext; reflexivity]|].
       cbn. rewrite has_key_set_assoc, N.eqb_refl. reflexivity.
     - split; [apply grows_set_slot; intros m E; discriminate | apply set_slot_has]. }
+  assert (Hp' : Grows st (if has_key s (st_redirects st) then set_slot st s (BErr (BLoad s range 1))
+                 else match class_of W s with
+                 | SNode => (set_slot st s (BMod (node_module s))) <| st_has_node := true |>
+                 | SBad => set_slot st s (BErr (BBadSpecifier s range))
+                 | SUrl => queue_load st s range asset in_dyn root attr count
+                 end) /\
+               has_key s (st_slots (if has_key s (st_redirects st) then set_slot st s (BErr (BLoad s range 1))
+                 else match class_of W s with
+                 | SNode => (set_slot st s (BMod (node_module s))) <| st_has_node := true |>
+                 | SBad => set_slot st s (BErr (BBadSpecifier s range))
+                 | SUrl => queue_load st s range asset in_dyn root attr count
+                 end)) = true).
+  { destruct (has_key s (st_redirects st)); [|exact Hp].
+    split; [apply grows_set_slot; intros m E; discriminate | apply set_slot_has]. }
+  clear Hp. rename Hp' into Hp.
   destruct (lookup s (st_slots st)) as [sl|] eqn:El; [|exact Hp].
   assert (Hk : has_key s (st_slots st) = true) by (unfold has_key; rewrite El; reflexivity).
   destruct (match sl with BExternal true => negb asset | _ => false end); [exact Hp|].
@@ -224,9 +275,9 @@ Lemma load_settles : forall xs st spec0 range asset in_dyn root attr count,
 Proof.
   intros xs st spec0 range asset in_dyn root attr count.
   destruct (load_grows st spec0 range asset in_dyn root attr count) as [G Hk].
-  unfold Sx, onehop in *. destruct (lookup spec0 (st_redirects st)) as [r|] eqn:El.
-  - eapply SX_red; [apply (gr_reds _ _ G); exact El | apply SX_slot; exact Hk].
-  - apply SX_slot. exact Hk.
+  unfold Sx, onehop, load_target in *.
+  eapply settx_rstar; [apply (resolve_rstar (redirect_graph (st_redirects st)) spec0) | | apply SX_slot; exact Hk].
+  cbn [g_redirects redirect_graph]. apply (gr_reds _ _ G).
 Qed.
 
 (* ---------- what is required of a target, and of a module entry ---------- *)
